@@ -1628,7 +1628,10 @@ fn gen_sm(a: &Args, tr: &mut Trace, rng: &mut Rng) {
                     } else {
                         &["addAdmin", "removeAdmin", "addPause", "removePause", "updateOwnerOrAdmin", "pause", "resume"]
                     };
-                    let o = *rng.pick(ops);
+                    let mut o = *rng.pick(ops);
+                    if o == "updateOwnerOrAdmin" && !rng.chance(1, 4) {
+                        o = *rng.pick(&["addAdmin", "removeAdmin"]); // it usually wipes the OWNER bit: keep it rare
+                    }
                     if matches!(o, "pause" | "resume" | "noswaps") { format!("sm perm {c} {o} {caller}") } else { format!("sm perm {c} {o} {caller} {target}") }
                 }
                 "wl" => format!("sm wl {c} {} {caller} {target}", rng.pick(&["add", "remove"])),
